@@ -130,6 +130,12 @@ def disk_part(ctx, batch, N):
             model_ops, gets = [], []
             trace = []
             spy.loaded.clear()
+            auth, other = {}, {}      # real payload bytes -> model bytes: pickle.dumps(v) is (v, 0); any other byte string gets its own id
+
+            def model_bytes(nb):
+                if nb in auth:
+                    return f"(VInt {c_Z(auth[nb])}, 0%nat)"
+                return f"(VInt {c_Z(0)}, {other.setdefault(nb, len(other) + 1)}%nat)"
             for _ in range(rng.randint(2, 10)):
                 k = rng.choice(keys)
                 kind = rng.choice(["set", "set", "get", "get", "torn", "flip", "trunc", "ptype", "sig", "sigtype", "dropsig", "droppayload"])
@@ -140,9 +146,11 @@ def disk_part(ctx, batch, N):
                         dc.set(k, v)
                         complete[k].append(v)
                         good_bytes.add(pickle.dumps(v))
+                        auth[pickle.dumps(v)] = v
                         model_ops.append(f"(DSet _ _ {c_pos(N(k))} (VInt {c_Z(v)}))")
                     elif kind == "torn":
                         v = rng.randint(100, 199)
+                        auth[pickle.dumps(v)] = v
                         proxy.armed, proxy.count = True, 0
                         try:
                             dc.set(k, v)
@@ -164,7 +172,8 @@ def disk_part(ctx, batch, N):
                         if kind in ("flip", "trunc") and isinstance(raw, bytes) and raw:
                             nb = (bytes([raw[0] ^ 1]) + raw[1:]) if kind == "flip" else raw[:-1]
                             proxy.inner.set(k, nb)
-                            model_ops.append(f"(DAlterPayload _ _ {c_pos(N(k))} (VInt {c_Z(0)}, {len(trace)}%nat))")
+                            # (flipping the same bit twice restores the authentic bytes: the model is told which bytes are there now)
+                            model_ops.append(f"(DAlterPayload _ _ {c_pos(N(k))} {model_bytes(nb)})")
                         elif kind == "ptype" and raw is not None:
                             proxy.inner.set(k, "not-bytes")
                             model_ops.append(f"(DPayloadType _ _ {c_pos(N(k))})")
